@@ -48,15 +48,18 @@ Section Proofs.
     i_off : off s <= length (dbuf s);
     i_reset : off s = length (dbuf s) -> tlen s = 0 -> dbuf s = [];
     i_wd : wdisconnected s = true -> unsent s = [];
-    i_conn : connected s = negb (disconnected s);
-    i_prod : producer s <> None -> connected s = true;
+    i_conn : connected s = true -> disconnected s = false;
+    i_prod : producer s <> None -> disconnected s = false;
     i_told0 : gtold s = true -> is_streaming s = true;
     i_writing : unsent s <> [] -> connected s = true -> writing s = true;
     i_closing : connected s = true -> disconnecting s = true -> producer s = None -> writing s = true;
     i_told : gtold s = true -> ppaused s = true /\ unsent s <> [];
     i_over : is_streaming s = true -> gtold s = false -> gwrote s = true -> length (unsent s) <= bsize;
     i_log : Forall ev_ok (log s);
-    i_sent : sent s = os_rl (log s)
+    i_sent : sent s = os_rl (log s);
+    (* a transport that was never connected has accepted nothing *)
+    i_pre : connected s = true \/ disconnected s = true \/
+            (written s = [] /\ disconnecting s = false /\ gtold s = false)
   }.
 
   Lemma init_inv : Inv init.
@@ -129,7 +132,7 @@ Section Proofs.
     (concat ds = [] -> gtold s = true -> unsent s <> []) ->
     Inv (accept ds s).
   Proof.
-    intros [Hb Ht Ho Hr Hw Hc Hp H0 Hwr Hcl Htd Hov Hl Hs] Hcon Hwd _. unfold accept.
+    intros [Hb Ht Ho Hr Hw Hc Hp H0 Hwr Hcl Htd Hov Hl Hs Hpre] Hcon Hwd _. unfold accept.
     set (s0 := set_gwrote true (set_written (written s ++ concat ds)
          (set_tlen (tlen s + length (concat ds)) (set_temp (temp s ++ ds) s)))).
     unfold unsent in *.
@@ -197,22 +200,24 @@ Section Proofs.
       + destruct HI. constructor; cbn; auto.
       + intros _. cbn. split; [|intros _; exact Ew].
         rewrite (i_bytes s HI), (i_wd s HI Ew), app_nil_r. reflexivity.
-    - destruct HI as [Hb Ht Ho Hr Hw Hc Hp H0 Hwr Hcl Htd Hov Hl Hs]. constructor; cbn; auto.
+    - destruct HI as [Hb Ht Ho Hr Hw Hc Hp H0 Hwr Hcl Htd Hov Hl Hs Hpre]. constructor; cbn; auto.
   Qed.
 
   Lemma losew_inv s : Inv s -> Inv (losew s).
   Proof.
-    intros [Hb Ht Ho Hr Hw Hc Hp H0 Hwr Hcl Htd Hov Hl Hs]. unfold losew. constructor; cbn; auto.
+    intros [Hb Ht Ho Hr Hw Hc Hp H0 Hwr Hcl Htd Hov Hl Hs Hpre]. unfold losew. constructor; cbn; auto.
   Qed.
 
   Lemma unregister_inv s : Inv s -> Inv (unregister s).
   Proof.
-    intros [Hb Ht Ho Hr Hw Hc Hp H0 Hwr Hcl Htd Hov Hl Hs]. unfold unregister. cbn.
+    intros [Hb Ht Ho Hr Hw Hc Hp H0 Hwr Hcl Htd Hov Hl Hs Hpre]. unfold unregister. cbn.
     destruct (connected s && disconnecting s) eqn:E.
     - constructor; cbn; auto; try discriminate; try congruence.
+      clear - Hpre. intuition auto.
     - apply andb_false_iff in E.
       constructor; cbn; auto; try discriminate; try congruence.
-      intros E1 E2 _. destruct E; congruence.
+      + intros E1 E2 _. destruct E; congruence.
+      + clear - Hpre. intuition auto.
   Qed.
 
   Lemma pact_inv s a : Inv s -> Inv (pact_apply bsize s a).
@@ -231,19 +236,20 @@ Section Proofs.
     intros Hsome HI. unfold resume.
     destruct (producer s) as [[[id str] scr]|] eqn:Ep; [|congruence].
     assert (H1 : Inv (emit (EResume id) (set_gtold false s))).
-    { destruct HI as [Hb Ht Ho Hr Hw Hc Hp H0 Hwr Hcl Htd Hov Hl Hs]. cbn in *.
+    { destruct HI as [Hb Ht Ho Hr Hw Hc Hp H0 Hwr Hcl Htd Hov Hl Hs Hpre]. cbn in *.
       constructor; cbn; rewrite ?app_nil_r; auto. constructor; [exact I | assumption]. }
     destruct scr as [|acts rest]; [exact H1|].
     apply pacts_inv.
-    destruct H1 as [Hb Ht Ho Hr Hw Hc Hp H0 Hwr Hcl Htd Hov Hl Hs]. cbn in *.
+    destruct H1 as [Hb Ht Ho Hr Hw Hc Hp H0 Hwr Hcl Htd Hov Hl Hs Hpre]. cbn in *.
     constructor; cbn; auto; try discriminate.
     - intros _. apply Hp. rewrite Ep. discriminate.
     - unfold is_streaming in *. cbn in *. rewrite Ep in Hov. exact Hov.
   Qed.
   Lemma inv_set_gtold_false s : Inv s -> gtold s = false -> Inv (set_gtold false s).
   Proof.
-    intros [Hb Ht Ho Hr Hw Hc Hp H0 Hwr Hcl Htd Hov Hl Hs] Hg.
+    intros [Hb Ht Ho Hr Hw Hc Hp H0 Hwr Hcl Htd Hov Hl Hs Hpre] Hg.
     constructor; cbn; auto; try discriminate.
+    clear - Hpre. intuition auto.
   Qed.
 
   Lemma gtold_false_without_producer s : Inv s -> producer s = None -> gtold s = false.
@@ -257,17 +263,17 @@ Section Proofs.
   Proof.
     intros HI. unfold register.
     destruct (producer s) as [p|] eqn:Ep.
-    - destruct HI as [Hb Ht Ho Hr Hw Hc Hp H0 Hwr Hcl Htd Hov Hl Hs].
+    - destruct HI as [Hb Ht Ho Hr Hw Hc Hp H0 Hwr Hcl Htd Hov Hl Hs Hpre].
       constructor; cbn; rewrite ?app_nil_r; auto. constructor; [exact I | assumption].
     - pose proof (gtold_false_without_producer s HI Ep) as Hg0.
       destruct (disconnected s) eqn:Ed.
-      + destruct HI as [Hb Ht Ho Hr Hw Hc Hp H0 Hwr Hcl Htd Hov Hl Hs].
+      + destruct HI as [Hb Ht Ho Hr Hw Hc Hp H0 Hwr Hcl Htd Hov Hl Hs Hpre].
         constructor; cbn; rewrite ?app_nil_r; auto. constructor; [exact I | assumption].
       + set (s1 := set_gwrote false (set_nextid (S (nextid s)) (set_producer (Some (nextid s, str, scr)) s))).
         assert (H1 : Inv s1).
-        { destruct HI as [Hb Ht Ho Hr Hw Hc Hp H0 Hwr Hcl Htd Hov Hl Hs]. unfold s1.
+        { destruct HI as [Hb Ht Ho Hr Hw Hc Hp H0 Hwr Hcl Htd Hov Hl Hs Hpre]. unfold s1.
           constructor; cbn; auto; try discriminate; try congruence.
-          all: try (intros _; rewrite Hc, Ed; reflexivity).
+          all: try (intros _; exact Ed).
           all: try (rewrite Hg0; discriminate). }
         destruct str; [exact H1|].
         apply resume_inv; [unfold s1; cbn; discriminate|].
@@ -278,7 +284,7 @@ Section Proofs.
   Lemma coalesce_inv s : Inv s -> Inv (coalesce slimit s).
   Proof.
     intros HI. unfold coalesce. destruct (Nat.ltb _ slimit); [|exact HI].
-    destruct HI as [Hb Ht Ho Hr Hw Hc Hp H0 Hwr Hcl Htd Hov Hl Hs]. unfold unsent in *.
+    destruct HI as [Hb Ht Ho Hr Hw Hc Hp H0 Hwr Hcl Htd Hov Hl Hs Hpre]. unfold unsent in *.
     constructor; cbn; rewrite ?app_nil_r; auto; try lia.
     intros E _. symmetry in E. apply length_zero_nil in E. exact E.
   Qed.
@@ -289,20 +295,22 @@ Section Proofs.
     m_tlen : tlen s = length (concat (temp s));
     m_off : off s <= length (dbuf s);
     m_wd : wdisconnected s = true -> unsent s = [];
-    m_conn : connected s = negb (disconnected s);
-    m_prod : producer s <> None -> connected s = true;
+    m_conn : connected s = true -> disconnected s = false;
+    m_prod : producer s <> None -> disconnected s = false;
     m_told0 : gtold s = true -> is_streaming s = true;
     m_writing : unsent s <> [] -> connected s = true -> writing s = true;
     m_closing : connected s = true -> disconnecting s = true -> producer s = None -> writing s = true;
     m_told : gtold s = true -> ppaused s = true;
     m_over : is_streaming s = true -> gtold s = false -> gwrote s = true -> length (unsent s) <= bsize;
     m_log : Forall ev_ok (log s);
-    m_sent : sent s = os_rl (log s)
+    m_sent : sent s = os_rl (log s);
+    m_pre : connected s = true \/ disconnected s = true \/
+            (written s = [] /\ disconnecting s = false /\ gtold s = false)
   }.
 
   Lemma os_accept_mid k s : Inv s -> Mid (os_accept k s).
   Proof.
-    intros [Hb Ht Ho Hr Hw Hc Hp H0 Hwr Hcl Htd Hov Hl Hs]. unfold os_accept.
+    intros [Hb Ht Ho Hr Hw Hc Hp H0 Hwr Hcl Htd Hov Hl Hs Hpre]. unfold os_accept.
     set (offered := skipn (off s) (dbuf s)). set (l := Nat.min k (length offered)).
     assert (Hl_le : l <= length (dbuf s) - off s).
     { unfold l, offered. rewrite skipn_length. lia. }
@@ -324,7 +332,7 @@ Section Proofs.
     Mid s -> Nat.eqb (off s) (length (dbuf s)) && Nat.eqb (tlen s) 0 = false ->
     (forall (Hr0 : off s = length (dbuf s) -> tlen s = 0 -> dbuf s = []), Inv s).
   Proof.
-    intros [Hb Ht Ho Hw Hc Hp H0 Hwr Hcl Htd Hov Hl Hs] E Hr0.
+    intros [Hb Ht Ho Hw Hc Hp H0 Hwr Hcl Htd Hov Hl Hs Hpre] E Hr0.
     constructor; auto.
     intros Hg. split; [auto|].
     apply andb_false_iff in E. unfold unsent. destruct E as [E | E].
@@ -335,10 +343,11 @@ Section Proofs.
 
   Lemma finish_inv s :
     Core s -> unsent s = [] -> is_pull s = false -> gtold s = false ->
-    connected s = negb (disconnected s) -> (producer s <> None -> connected s = true) ->
+    (connected s = true -> disconnected s = false) -> (producer s <> None -> disconnected s = false) ->
+    (connected s = true \/ disconnected s = true \/ (written s = [] /\ disconnecting s = false /\ gtold s = false)) ->
     Inv (finish s).
   Proof.
-    intros HC Hu Hpull Hg Hc Hp. unfold finish.
+    intros HC Hu Hpull Hg Hc Hp Hpre. unfold finish.
     assert (Hws : written s = sent s).
     { rewrite (c_bytes s HC), Hu, app_nil_r. reflexivity. }
     destruct (disconnecting s) eqn:Ed.
@@ -349,16 +358,18 @@ Section Proofs.
           try (fold (unsent s); rewrite Hu; cbn; intros; try congruence; lia).
         * rewrite Ed. discriminate.
         * constructor; [cbn; auto | assumption].
+        * clear - Hpre Ed Hg. rewrite ?Ed, ?Hg. intuition auto.
       + constructor; cbn; auto; try (rewrite Hg; discriminate);
           try (rewrite Hu; cbn; intros; try congruence; lia).
-        rewrite Ed. discriminate.
+        * rewrite Ed. discriminate.
+        * clear - Hpre Ed Hg. rewrite ?Ed, ?Hg. intuition auto.
   Qed.
 
   Lemma after_drain_inv s :
     Mid s -> Nat.eqb (off s) (length (dbuf s)) && Nat.eqb (tlen s) 0 = true ->
     Inv (after_drain bsize s).
   Proof.
-    intros [Hb Ht Ho Hw Hc Hp H0 Hwr Hcl Htd Hov Hl Hs] E.
+    intros [Hb Ht Ho Hw Hc Hp H0 Hwr Hcl Htd Hov Hl Hs Hpre] E.
     apply andb_true_iff in E. destruct E as [E1 E2].
     apply Nat.eqb_eq in E1. apply Nat.eqb_eq in E2.
     assert (Hct : concat (temp s) = []) by (apply length_zero_nil; lia).
@@ -376,6 +387,7 @@ Section Proofs.
         unfold s3 in *. cbn in Ep.
         constructor; cbn; auto; try discriminate; try congruence; try (rewrite Hct; cbn; auto; try congruence; lia).
         all: try (rewrite Hb, Hu, Hct; reflexivity).
+        all: try (clear - Hpre; intuition auto).
       + apply orb_false_iff in Eb. destruct Eb as [Eb1 Eb2]. apply negb_false_iff in Eb1. subst str.
         apply finish_inv; auto.
         * unfold is_pull. rewrite Ep. reflexivity.
@@ -398,7 +410,7 @@ Section Proofs.
       + apply (mid_not_drained s2 HM E).
         intros A B. rewrite A, B, !Nat.eqb_refl in E. discriminate.
     - apply conn_lost_inv; [|discriminate].
-      destruct HI as [Hb Ht Ho Hr Hw Hc Hp H0 Hwr Hcl Htd Hov Hl Hs].
+      destruct HI as [Hb Ht Ho Hr Hw Hc Hp H0 Hwr Hcl Htd Hov Hl Hs Hpre].
       constructor; cbn; rewrite ?app_nil_r; auto. constructor; [exact I | assumption].
   Qed.
 
@@ -416,6 +428,18 @@ Section Proofs.
     - destruct (writing s); [apply do_write_inv, HI | exact HI].
     - destruct (connected s); [|exact HI].
       apply conn_lost_inv; [apply inv_core, HI | discriminate].
+    - destruct (negb (connected s) && negb (disconnected s)) eqn:E; [|exact HI].
+      apply andb_true_iff in E. destruct E as [E1 E2]. apply negb_true_iff in E1, E2.
+      destruct HI as [Hb Ht Ho Hr Hw Hc Hp H0 Hwr Hcl Htd Hov Hl Hs Hpre].
+      assert (Hw0 : written s = [] /\ disconnecting s = false /\ gtold s = false)
+        by (destruct Hpre as [H|[H|H]]; [congruence | congruence | exact H]).
+      destruct Hw0 as [W [D G]].
+      assert (Hu : unsent s = []).
+      { rewrite W in Hb. symmetry in Hb. apply app_eq_nil in Hb. apply Hb. }
+      constructor; cbn; auto.
+      all: try (intros _; exact E2).
+      all: try (rewrite Hu; congruence).
+      all: try (rewrite D; discriminate).
   Qed.
 
   Lemma run_from_inv ops : forall s, Inv s -> Inv (fold_left (step slimit bsize) ops s).
@@ -423,64 +447,81 @@ Section Proofs.
     induction ops as [|o r IH]; intros s H; cbn; [exact H|]. apply IH, step_inv, H.
   Qed.
 
-  Lemma run_inv ops : Inv (run slimit bsize ops).
-  Proof. apply run_from_inv, init_inv. Qed.
-
-  (** ---- the property statements, read off the invariant ---- *)
-  Lemma reach_buffer ops :
-    let s := run slimit bsize ops in
-    written s = os_bytes (rev (log s)) ++ skipn (off s) (dbuf s) ++ concat (temp s).
+  Lemma init_pre_inv : Inv init_pre.
   Proof.
-    cbv zeta. pose proof (run_inv ops) as HI. rewrite <- os_rl_rev, <- (i_sent _ HI). apply (i_bytes _ HI).
+    constructor; cbn; try reflexivity; try discriminate; try lia; auto; try congruence.
   Qed.
 
-  Lemma reach_prefix ops :
-    let s := run slimit bsize ops in exists rest, written s = os_bytes (rev (log s)) ++ rest.
+  Lemma run_inv pre ops : Inv (run slimit bsize pre ops).
+  Proof. apply run_from_inv. destruct pre; [apply init_pre_inv | apply init_inv]. Qed.
+
+  (** ---- the property statements, read off the invariant ---- *)
+  Lemma reach_buffer pre ops :
+    let s := run slimit bsize pre ops in
+    written s = os_bytes (rev (log s)) ++ skipn (off s) (dbuf s) ++ concat (temp s).
+  Proof.
+    cbv zeta. pose proof (run_inv pre ops) as HI. rewrite <- os_rl_rev, <- (i_sent _ HI). apply (i_bytes _ HI).
+  Qed.
+
+  Lemma reach_prefix pre ops :
+    let s := run slimit bsize pre ops in exists rest, written s = os_bytes (rev (log s)) ++ rest.
   Proof. cbv zeta. eexists. apply reach_buffer. Qed.
 
-  Lemma reach_close ops clean pull wd wr se :
-    In (ELost clean pull wd wr se) (log (run slimit bsize ops)) -> clean = true ->
+  Lemma reach_close pre ops clean pull wd wr se :
+    In (ELost clean pull wd wr se) (log (run slimit bsize pre ops)) -> clean = true ->
     wr = se /\ (pull = true -> wd = true).
   Proof.
-    intros Hin Hc. pose proof (i_log _ (run_inv ops)) as HF. rewrite Forall_forall in HF.
+    intros Hin Hc. pose proof (i_log _ (run_inv pre ops)) as HF. rewrite Forall_forall in HF.
     specialize (HF _ Hin). subst clean. exact HF.
   Qed.
 
-  Lemma reach_halfclose ops pull wr se :
-    In (ECloseWrite pull wr se) (log (run slimit bsize ops)) -> wr = se /\ pull = false.
+  Lemma reach_halfclose pre ops pull wr se :
+    In (ECloseWrite pull wr se) (log (run slimit bsize pre ops)) -> wr = se /\ pull = false.
   Proof.
-    intros Hin. pose proof (i_log _ (run_inv ops)) as HF. rewrite Forall_forall in HF. exact (HF _ Hin).
+    intros Hin. pose proof (i_log _ (run_inv pre ops)) as HF. rewrite Forall_forall in HF. exact (HF _ Hin).
   Qed.
 
-  Lemma reach_paused_over ops :
-    let s := run slimit bsize ops in
+  Lemma reach_paused_over pre ops :
+    let s := run slimit bsize pre ops in
     is_streaming s = true -> gwrote s = true -> bsize < length (unsent s) -> gtold s = true.
   Proof.
-    cbv zeta. intros H1 H2 H3. pose proof (run_inv ops) as HI.
-    destruct (gtold (run slimit bsize ops)) eqn:Eg; [reflexivity|].
+    cbv zeta. intros H1 H2 H3. pose proof (run_inv pre ops) as HI.
+    destruct (gtold (run slimit bsize pre ops)) eqn:Eg; [reflexivity|].
     pose proof (i_over _ HI H1 Eg H2). lia.
   Qed.
 
-  Lemma reach_paused_pending ops :
-    let s := run slimit bsize ops in
+  Lemma reach_paused_pending pre ops :
+    let s := run slimit bsize pre ops in
     gtold s = true ->
     is_streaming s = true /\ ppaused s = true /\ unsent s <> [] /\ connected s = true /\ writing s = true.
   Proof.
-    cbv zeta. intros Hg. pose proof (run_inv ops) as HI.
+    cbv zeta. intros Hg. pose proof (run_inv pre ops) as HI.
     destruct (i_told _ HI Hg) as [Hp Hne]. pose proof (i_told0 _ HI Hg) as Hs.
-    assert (Hc : connected (run slimit bsize ops) = true) by (apply (i_prod _ HI), is_streaming_some, Hs).
+    assert (Hc : connected (run slimit bsize pre ops) = true).
+    { pose proof (i_prod _ HI (is_streaming_some _ Hs)) as Hd.
+      destruct (i_pre _ HI) as [H|[H|[_ [_ H]]]]; [exact H | congruence | congruence]. }
     repeat split; auto. apply (i_writing _ HI); assumption.
   Qed.
 
-  Lemma reach_no_stall ops :
-    let s := run slimit bsize ops in
+  Lemma reach_no_stall pre ops :
+    let s := run slimit bsize pre ops in
     connected s = true ->
     (unsent s <> [] -> writing s = true) /\
     (disconnecting s = true -> producer s = None -> writing s = true).
   Proof.
-    cbv zeta. intros Hc. pose proof (run_inv ops) as HI. split.
+    cbv zeta. intros Hc. pose proof (run_inv pre ops) as HI. split.
     - intros Hne. apply (i_writing _ HI); assumption.
     - apply (i_closing _ HI Hc).
+  Qed.
+
+  Lemma reach_pre pre ops :
+    let s := run slimit bsize pre ops in
+    connected s = false -> disconnected s = false -> written s = [] /\ sent s = [] /\ unsent s = [].
+  Proof.
+    cbv zeta. intros Hc Hd. pose proof (run_inv pre ops) as HI.
+    destruct (i_pre _ HI) as [H|[H|[W _]]]; [congruence | congruence|].
+    pose proof (i_bytes _ HI) as Hb. rewrite W in Hb. symmetry in Hb. apply app_eq_nil in Hb.
+    destruct Hb as [A B]. auto.
   Qed.
 
   (** the pause decision itself: pauseProducing is called by an accepted write exactly when the code's measure
@@ -501,32 +542,38 @@ End Proofs.
 
 (** ---- examples: the hypotheses of the theorems are met by real histories ---- *)
 Example ex_paused_over :
-  let s := run 4 2 [Register true []; Write [1;2;3;4]%N; DoWrite 1] in
+  let s := run 4 2 false [Register true []; Write [1;2;3;4]%N; DoWrite 1] in
   is_streaming s = true /\ gwrote s = true /\ 2 < length (unsent s) /\ gtold s = true.
 Proof. vm_compute. repeat split; lia. Qed.
 
 Example ex_clean_close_after_flush :
   In (ELost true false false [1;2;3]%N [1;2;3]%N)
-     (log (run 2 3 [Write [1;2;3]%N; DoWrite 1; Lose; DoWrite 1; DoWrite 9; DoWrite 9])).
+     (log (run 2 3 false [Write [1;2;3]%N; DoWrite 1; Lose; DoWrite 1; DoWrite 9; DoWrite 9])).
 Proof. vm_compute. auto. Qed.
 
 (** the only way a clean close meets a registered pull producer: the write side was shut down before *)
 Example ex_close_with_pull_producer_after_half_close :
   In (ELost true true true [] [])
-     (log (run 2 2 [LoseW; DoWrite 5; Register false [[PW [97]%N]]; Lose])).
+     (log (run 2 2 false [LoseW; DoWrite 5; Register false [[PW [97]%N]]; Lose])).
 Proof. vm_compute. auto. Qed.
 
 (** the pause measure counts the already-sent prefix of dataBuffer: a producer can be paused although fewer than
     bufferSize bytes are waiting (conservative; it is resumed at the drain) *)
 Example ex_pause_measure_overcounts :
-  let s := run 1 3 [Write [1;2;3]%N; DoWrite 2; Register true []; Write [4]%N] in
+  let s := run 1 3 false [Write [1;2;3]%N; DoWrite 2; Register true []; Write [4]%N] in
   gtold s = true /\ length (unsent s) = 2.
 Proof. vm_compute. auto. Qed.
 
 (** outside the C14 statement (see design.d/C14.md): loseWriteConnection while a pull producer is registered; when
     the producer unregisters nothing re-registers the writer, so the half-close is never carried out *)
 Example ex_half_close_forgotten :
-  let s := run 4 3 [Register false [[PW [97]%N]; [PUnreg]]; LoseW; DoWrite 9; DoWrite 9; DoWrite 9] in
+  let s := run 4 3 false [Register false [[PW [97]%N]; [PUnreg]]; LoseW; DoWrite 9; DoWrite 9; DoWrite 9] in
   wdisconnecting s = true /\ wdisconnected s = false /\ producer s = None /\ unsent s = [] /\ writing s = false
   /\ connected s = true.
 Proof. vm_compute. auto 10. Qed.
+
+(** a client transport before the connection is established accepts nothing; what is written after Connect is sent *)
+Example ex_nothing_accepted_before_connect :
+  let s := run 4 9 true [Write [1;2]%N; WriteSeq [[3]%N]; Connect; Write [4]%N; DoWrite 9] in
+  written s = [4]%N /\ sent s = [4]%N.
+Proof. vm_compute. auto. Qed.
